@@ -219,7 +219,7 @@ func genCase(rt *rapid.T) caseSpec {
 	c.slowA = rapid.SampledFrom([]time.Duration{0, 0, 30 * time.Second, 50 * time.Second}).Draw(rt, "slowFailingTracker")
 	n := rapid.IntRange(1, 15).Draw(rt, "nsteps")
 	for i := 0; i < n; i++ {
-		s := step{Kind: rapid.SampledFrom([]string{"setconf", "setconf", "setconf", "announce", "announce", "want", "want", "peer-out", "peer-out", "peer-in", "peer-in", "sleep", "sleep", "sleep", "sleep",
+		s := step{Kind: rapid.SampledFrom([]string{"setconf", "setconf", "setconf", "setconf-pair", "announce", "announce", "want", "want", "peer-out", "peer-out", "peer-in", "peer-in", "sleep", "sleep", "sleep", "sleep",
 			"re-add", "swap", "peer-in-swap", "metadata", "metadata"}).Draw(rt, "kind"), A: rapid.IntRange(0, 1000).Draw(rt, "a")}
 		switch s.Kind {
 		case "setconf", "re-add":
@@ -281,10 +281,19 @@ func run(c caseSpec) (fail string, labels map[string]bool, hist []string) {
 	}
 	h := ref.Benc(0) // placeholder to keep the import used
 	_ = h
+	var noneAcked chan struct{} // closed when a switch to DHT mode 'none' has been acknowledged
+	lateAnnounce := false
 	tor.VerifAnnounceTap = func(hh hash.Hash, ipv6 bool, port uint16) {
 		if hh.Equal(ih) {
 			mu.Lock()
 			dhts = append(dhts, dhtRec{ipv6, port})
+			if noneAcked != nil {
+				select {
+				case <-noneAcked:
+					lateAnnounce = true
+				default:
+				}
+			}
 			mu.Unlock()
 		}
 	}
@@ -490,6 +499,40 @@ func run(c caseSpec) (fail string, labels map[string]bool, hist []string) {
 			if g2.DhtMode != K.dht || g2.UseTrackers != K.trackers || g2.UseWebseeds != K.webseeds {
 				return fmt.Sprintf("%s: GetConf returns %+v", what, g2) + describe(), labels, hist
 			}
+		case "setconf-pair":
+			// two configuration changes queued one behind the other while the
+			// torrent is busy: the DHT mode is raised to 'normal' and at once set
+			// to 'none'.  The announce the raise calls for belongs before the
+			// acknowledgement of 'none', not after it.
+			if K.dht == config.DhtNormal || t == nil {
+				continue
+			}
+			held := make(chan *peer.TorStats)
+			t.Event <- peer.TorGetStats{Ch: held}
+			sim.Settle()
+			ack1, ack2 := make(chan struct{}), make(chan struct{})
+			t.Event <- peer.TorSetConf{Conf: peer.TorConf{DhtMode: config.DhtNormal, UseTrackers: K.trackers, UseWebseeds: K.webseeds}, Ch: ack1}
+			t.Event <- peer.TorSetConf{Conf: peer.TorConf{DhtMode: config.DhtNone, UseTrackers: K.trackers, UseWebseeds: K.webseeds}, Ch: ack2}
+			mu.Lock()
+			noneAcked = ack2
+			mu.Unlock()
+			<-held
+			<-ack1
+			<-ack2
+			sim.Settle()
+			time.Sleep(time.Second)
+			sim.Settle()
+			mu.Lock()
+			late := lateAnnounce
+			noneAcked = nil
+			mu.Unlock()
+			if late {
+				return fmt.Sprintf("%s: the torrent was announced to the DHT after its switch to mode 'none' had been acknowledged", what) + describe(), labels, hist
+			}
+			K.dht = config.DhtNone
+			seen[K.String()] = true
+			take()
+			labels["dht raised and set to none back to back"] = true
 		case "re-add":
 			// the same info-hash is submitted again (web UI, command line) while
 			// other global defaults are in force: the duplicate is refused, and
